@@ -64,6 +64,22 @@ def run(ctx):
             keep = ctx.save_replay(v.bad.replace("(", "_").replace(")", "") + "-history", {"clause": v.bad, "trace_line": v.line, "event": json.loads(ev) if ev else None,
                                                                                             "trace_prefix": lines[max(0, v.line - 4):v.line]})
             ctx.violation(v.bad, keep, "PartitionProp clause %s broken (history / concurrent splits) at trace line %d: %s" % (v.bad, v.line, ev[:400]))
+    # the statement's series identity is (name, tag set, source); the map's is (name, a string built from tags and source): pairs of
+    # triples that spell the same string (finding 19, recorded)
+    out = ctx.path("out-identity.json")
+    rc, txt, wall = ctx.go_test("c06", run="TestIdentity", env={"VERIF_OUT": out})
+    if rc != 0 or not os.path.exists(out):
+        raise vlib.MachineryError("harness c06 TestIdentity failed (rc=%d)\n%s" % (rc, txt[-3000:]))
+    r = vlib.read_results(out)
+    ctx.cov["evaluations"] += r["evaluations"]
+    ctx.cov["traces_validated_against_impl"] += r["evaluations"]
+    for k, n in r["named"].items():
+        named[k] = named.get(k, 0) + n
+    seen_sig = set()
+    for f in r["failures"]:
+        if f["sig"] not in seen_sig:
+            seen_sig.add(f["sig"])
+            ctx.violation(f["sig"], ctx.save_replay(f["sig"].replace(":", "_"), f), f["desc"])
     # "is reported at most once per flush", end to end: the pipeline schedules of C01 (workers held in ReceiveMap / Flush / before Reset
     # while the flusher ticks), judged on the clauses that are this property's
     import c01
